@@ -33,6 +33,7 @@ def script(unit):
     calls = [Call(m, 'validate', [X()]), Call(m, 'format', [X()], fo, requires=[0]), Call(m, 'validate', [R(1)], label='validate(format)'),
              Call(m, 'format', [R(0)], fo, label='format(validate)')]
     norm = None
+    pres = 3
     if m == 'stdnum.ismn':
         calls += [Call(m, 'to_ismn13', [R(0)]), Call(m, 'to_ismn13', [R(2)])]
         norm = (4, 5)
@@ -42,6 +43,10 @@ def script(unit):
     elif m == 'stdnum.meid':
         calls += [Call(m, 'compact', [R(0)], {'strip_check_digit': True}), Call(m, 'compact', [R(2)], {'strip_check_digit': True})]
         norm = (4, 5)
+        # "MEID check digit dropped by validate": format() keeps a check digit that is present, so the presentation-independent
+        # text is the one of the canonical number *with* its check digit: validate(x, strip_check_digit=False)
+        calls += [Call(m, 'validate', [X()], {'strip_check_digit': False}, requires=[0]), Call(m, 'format', [R(6)], fo, label='format(validate keeping the check digit)')]
+        pres = 7
     elif m == 'stdnum.isbn' and fo.get('convert'):
         calls += [Call(m, 'to_isbn13', [R(0)]), Call(m, 'to_isbn13', [R(2)])]
         norm = (4, 5)
@@ -73,9 +78,9 @@ def script(unit):
     def ob_presentation(outs):
         if outs[0].kind != 'ret':
             return None
-        if outs[1].kind != 'ret' or outs[3].kind != 'ret':
+        if outs[1].kind != 'ret' or outs[pres].kind != 'ret':
             return False
-        return veq(outs[1].value, outs[3].value)
+        return veq(outs[1].value, outs[pres].value)
     return calls, [('format:formatted-number-not-the-same-valid-number', ob_identity), ('format:depends-on-presentation', ob_presentation)], (lambda outs: outs[0].kind == 'ret')
 
 
